@@ -161,6 +161,7 @@ class FnView:
         self._origin_cache = {}
         self._rs = {}
         self._wd = {}
+        self._ks = {}
 
     # -- CFG ---------------------------------------------------------------------------
     def succs(self, b):
@@ -264,13 +265,33 @@ class FnView:
             self._wd[l] = r
         return r
 
-    def def_reaches_killing(self, l, db, di, at):
+    def kill_sites(self, l, proj):
+        """Sites that overwrite everything a read of `l.proj` observes: whole assignments of l and
+        assignments to a field path that is a prefix of proj."""
+        key = (l, proj)
+        r = self._ks.get(key)
+        if r is None:
+            r = list(self.whole_defs(l))
+            if proj:
+                for d in self.defs().get(l, []):
+                    if d[0] == "s":
+                        F = tuple(self._named_fields(d[3]["lhs"]["p"]))
+                        if F and F == tuple(proj[:len(F)]) and "[]" not in F:
+                            r.append((d[1], d[2]))
+                    else:
+                        F = tuple(self._named_fields(d[2]["dest"]["p"]))
+                        if F and F == tuple(proj[:len(F)]) and "[]" not in F:
+                            r.append((d[1], len(self.blocks[d[1]]["s"])))
+            self._ks[key] = r
+        return r
+
+    def def_reaches_killing(self, l, db, di, at, proj=()):
         """Reaching-definition test with kills: the definition of (part of) local l at (db, di) reaches the
-        use at `at` along some path on which l is not re-assigned as a whole."""
+        use at `at` along some path on which the part being read is not overwritten."""
         if at is None:
             return True
         ub, ui = at
-        kills = [(kb, ki) for kb, ki in self.whole_defs(l) if (kb, ki) != (db, di)]
+        kills = [(kb, ki) for kb, ki in self.kill_sites(l, tuple(proj)) if (kb, ki) != (db, di)]
         if not kills:
             return self.def_reaches(db, di, at)
         if db == ub and di < ui and not any(kb == db and di < ki < ui for kb, ki in kills):
@@ -448,7 +469,7 @@ class FnView:
             out.add(Origin("param", l, self.path, proj))
         for d in self.defs().get(l, []):
             if d[0] == "s":
-                if not self.def_reaches_killing(l, d[1], d[2], at):
+                if not self.def_reaches_killing(l, d[1], d[2], at, proj):
                     continue
                 s = d[3]
                 lhs_fields = self._named_fields(s["lhs"]["p"])
@@ -458,7 +479,7 @@ class FnView:
                     continue
                 out |= self._origins_rvalue(s["rv"], rest, taint, visiting, d[1], d[2], (d[1], d[2]))
             else:
-                if not self.def_reaches_killing(l, d[1], len(self.blocks[d[1]]["s"]), at):
+                if not self.def_reaches_killing(l, d[1], len(self.blocks[d[1]]["s"]), at, proj):
                     continue
                 t = d[2]
                 lhs_fields = self._named_fields(t["dest"]["p"])
@@ -498,6 +519,9 @@ class FnView:
             return self._origins_pl(o["pl"], proj, taint, visiting, at)
         if k == "agg":
             if "adt" in rv:
+                if (rv["variant"] in ("Some", "Ok", "Continue") and len(rv["ops"]) == 1
+                        and re.search(r"(option::Option|result::Result|ops::ControlFlow)$", rv["adt"])):
+                    return self._origins_op(rv["ops"][0], proj, taint, visiting, at)
                 if proj:
                     # descend into the named field
                     head = proj[0]
